@@ -9,7 +9,7 @@ use vbase::{ensure, fail};
 
 use crate::sx::{cmp_node, walk};
 
-pub const RULE: &str = "cases are well-formed JSON texts (generated with independent layout incl. duplicate keys, escapes, long strings, every alignment prefix 0..64; golden documents padded to every total length; the repository's benchmark corpus files). Each is parsed through the routes {from_slice/from_str whole input (in-place padded parser), struct field, Option<Value> behind whitespace, two elements of Vec<Value>, 2nd and 3rd document of Deserializer::deserialize and of into_stream (copying parser)} x {default, use_rawnumber(), utf8_lossy(), both options in either order}; from_reader with the text arriving whole, byte by byte, in 5-byte pieces with interruptions, and in growing pieces; every resulting Value is walked through the public read API and compared node by node with the reference parse (order and duplicates kept, decoded strings, numbers by the C07 rule, raw numbers byte-equal to the literal); routes must also agree with each other by == and to_string; sub-check stream-mix reads 2..6 generated documents (incl. many-small, bracket-burst and skip-stress ones) through ONE deserializer into alternating targets (Value, LazyValue, IgnoredAny, OwnedLazyValue) and requires each to come out as if parsed alone. Every Deserializer route parses from a private heap copy of the text that is overwritten and freed before the Value is walked (a Value has no lifetime and must own everything). Non-trivial = at least one container and at least three values; distinct by text.";
+pub const RULE: &str = "cases are well-formed JSON texts (generated with independent layout incl. duplicate keys, escapes, long strings, every alignment prefix 0..64; golden documents padded to every total length; the repository's benchmark corpus files). Each is parsed through the routes {from_slice/from_str whole input (in-place padded parser), struct field, Option<Value> behind whitespace, two elements of Vec<Value>, 2nd and 3rd document of Deserializer::deserialize and of into_stream (copying parser)} x {default, use_rawnumber(), utf8_lossy(), both options in either order}; from_reader with the text arriving whole, byte by byte, in 5-byte pieces with interruptions, and in growing pieces; every resulting Value is walked through the public read API and compared node by node with the reference parse (order and duplicates kept, decoded strings, numbers by the C07 rule, raw numbers byte-equal to the literal); routes must also agree with each other by == and to_string; typed DOM targets Object / Array (whole input, struct field, later stream document); objects of 16..104 members in non-lexicographic order, flat containers of 196,600..262,144 members, and one array and one object with 2^24 + 9 members whose elements are known by position; sub-check stream-mix reads 2..6 generated documents (incl. many-small, bracket-burst and skip-stress ones) through ONE deserializer into alternating targets (Value, LazyValue, IgnoredAny, OwnedLazyValue) and requires each to come out as if parsed alone. Every Deserializer route parses from a private heap copy of the text that is overwritten and freed before the Value is walked (a Value has no lifetime and must own everything). Non-trivial = at least one container and at least three values; distinct by text.";
 pub const ASSUMPTIONS: &[&str] = &["refjson parser is correct (self-tested against serde_json on every run)", "Rust std str::parse::<f64>/<u64>/<i64> are exact"];
 
 #[derive(Deserialize)]
@@ -97,6 +97,41 @@ pub fn oracle(t: &[u8], obs: &mut Obs) -> Result<(), Fail> {
     check_value("from_str::<Value>", "whole", &node, t, &v1, false)?;
     ensure!(v0 == v1, "C03/whole/routes-disagree", "from_slice and from_str values differ on {:?}", show_bytes(t, 300));
     let s0 = sonic_rs::to_string(&v0).map_err(|e| Fail::new("C03/whole/to_string", format!("{e}")))?;
+    // the typed DOM targets `Object` / `Array` (whole input, struct field, later stream document)
+    {
+        use sonic_rs::{Array, Object};
+        #[derive(Deserialize)]
+        struct WrapO {
+            v: Object,
+        }
+        #[derive(Deserialize)]
+        struct WrapA {
+            v: Array,
+        }
+        let w = wrap(b"{\"v\": ", t, b"}");
+        let st = wrap(b"0 ", t, b"");
+        match &node.kind {
+            Kind::Obj(_) => {
+                let o: Object = sonic_rs::from_slice(t).map_err(|e| Fail::new("C03/typed-dom/rejects-valid", format!("from_slice::<Object> rejected {:?}: {e}", show_bytes(t, 300))))?;
+                check_value("from_slice::<Object>", "typed-dom", &node, t, &o.into_value(), false)?;
+                let x: WrapO = sonic_rs::from_slice(&w).map_err(|e| Fail::new("C03/typed-dom/rejects-valid", format!("Object field rejected {:?}: {e}", show_bytes(t, 300))))?;
+                check_value("struct field of type Object", "typed-dom", &node, t, &x.v.into_value(), false)?;
+                let mut de = Deserializer::from_slice(&st);
+                let _ = de.deserialize::<Value>();
+                let o: Object = de.deserialize().map_err(|e| Fail::new("C03/typed-dom/rejects-valid", format!("Object as later stream document rejected {:?}: {e}", show_bytes(t, 300))))?;
+                check_value("later stream document of type Object", "typed-dom", &node, t, &o.into_value(), false)?;
+                ensure!(sonic_rs::from_slice::<Array>(t).is_err(), "C03/typed-dom/wrong-kind", "from_slice::<Array> accepted an object");
+            }
+            Kind::Arr(_) => {
+                let a: Array = sonic_rs::from_slice(t).map_err(|e| Fail::new("C03/typed-dom/rejects-valid", format!("from_slice::<Array> rejected {:?}: {e}", show_bytes(t, 300))))?;
+                check_value("from_slice::<Array>", "typed-dom", &node, t, &a.into_value(), false)?;
+                let x: WrapA = sonic_rs::from_slice(&w).map_err(|e| Fail::new("C03/typed-dom/rejects-valid", format!("Array field rejected {:?}: {e}", show_bytes(t, 300))))?;
+                check_value("struct field of type Array", "typed-dom", &node, t, &x.v.into_value(), false)?;
+                ensure!(sonic_rs::from_slice::<Object>(t).is_err(), "C03/typed-dom/wrong-kind", "from_slice::<Object> accepted an array");
+            }
+            _ => {}
+        }
+    }
     // from_reader, the text arriving in one piece and in small pieces
     for step in [usize::MAX, 1, 5, 0] {
         let rd = super::c02::Pieces::new(t, step, step == 5);
@@ -236,12 +271,82 @@ pub fn oracle_stream(case: &[u8], obs: &mut Obs) -> Result<(), Fail> {
     Ok(())
 }
 
+/// A container with more than 2^24 direct children (about 34 MB of text): too large for the reference
+/// tree, so it is built so that every element is known by its position. case[0] = 0: array, 1: object.
+pub fn oracle_huge(case: &[u8], obs: &mut Obs) -> Result<(), Fail> {
+    use sonic_rs::{JsonContainerTrait, JsonValueTrait};
+    let as_obj = case.first().copied().unwrap_or(0) == 1;
+    let n: usize = (1 << 24) + 5;
+    let mut t = Vec::with_capacity(n * (if as_obj { 6 } else { 2 }) + 64);
+    t.push(if as_obj { b'{' } else { b'[' });
+    for i in 0..n {
+        if i > 0 {
+            t.push(b',');
+        }
+        if as_obj {
+            t.extend_from_slice(b"\"\":");
+        }
+        t.push(b'0' + (i % 10) as u8);
+    }
+    // the last members are the ones whose position no longer fits a narrower field
+    let tail: [&str; 4] = ["\"tail-string\"", "[1,[2]]", "{\"k\":\"v\"}", "-1.5"];
+    for (j, x) in tail.iter().enumerate() {
+        t.push(b',');
+        if as_obj {
+            t.extend_from_slice(format!("\"t{j}\":").as_bytes());
+        }
+        t.extend_from_slice(x.as_bytes());
+    }
+    t.push(if as_obj { b'}' } else { b']' });
+    obs.nt();
+    obs.render = Some(format!("{} with {} + 4 members", if as_obj { "object" } else { "array" }, n));
+    let check = |route: &'static str, v: &Value| -> Result<(), Fail> {
+        let len = if as_obj { v.as_object().map(|o| o.len()) } else { v.as_array().map(|a| a.len()) };
+        ensure!(len == Some(n + 4), "C03/huge/length", "{route}: container of {} members has len() = {len:?}", n + 4);
+        // one pass over the members: remember the ones that are looked at
+        let probes = [0usize, 1, 9, (1 << 24) - 2, (1 << 24) - 1, 1 << 24, n - 1, n, n + 1, n + 2, n + 3];
+        let mut found: Vec<Option<&Value>> = vec![None; probes.len()];
+        if as_obj {
+            for (i, (_, x)) in v.as_object().unwrap().iter().enumerate() {
+                if let Some(k) = probes.iter().position(|&p| p == i) {
+                    found[k] = Some(x);
+                }
+            }
+        } else {
+            for (k, &p) in probes.iter().enumerate() {
+                found[k] = v.get(p);
+            }
+        }
+        for k in 0..7 {
+            let i = probes[k];
+            ensure!(found[k].and_then(|x| x.as_u64()) == Some((i % 10) as u64), "C03/huge/element", "{route}: member {i} is {:?}, expected {}", found[k].map(|x| walk(x, false).dump()), i % 10);
+        }
+        let got: Vec<String> = (0..4).map(|j| found[7 + j].map(|x| sonic_rs::to_string(&x.clone()).unwrap_or_default()).unwrap_or_default()).collect();
+        ensure!(got == tail, "C03/huge/tail", "{route}: the last four members read as {got:?}, expected {tail:?}");
+        ensure!(found[7].and_then(|x| x.as_str()) == Some("tail-string") && found[8].and_then(|x| x.get(1usize)).and_then(|x| x.get(0usize)).and_then(|x| x.as_u64()) == Some(2) && found[9].and_then(|x| x.get("k")).and_then(|x| x.as_str()) == Some("v"), "C03/huge/tail", "{route}: reading into the last members fails");
+        Ok(())
+    };
+    let v: Value = sonic_rs::from_slice(&t).map_err(|e| Fail::new("C03/huge/rejects-valid", format!("{e}")))?;
+    check("from_slice::<Value>", &v)?;
+    drop(v);
+    let mut w = b"0 ".to_vec();
+    w.extend_from_slice(&t);
+    drop(t);
+    let mut de = Deserializer::from_slice(&w).use_rawnumber();
+    let _ = de.deserialize::<Value>();
+    let v: Value = de.deserialize().map_err(|e| Fail::new("C03/huge/rejects-valid", format!("later stream document: {e}")))?;
+    check("later stream document (raw-number mode)", &v)?;
+    Ok(())
+}
+
 pub fn subs() -> Vec<Sub<'static>> {
     vec![
         Sub { name: "docs", oracle: &oracle, minimise_bytes: false },
         Sub { name: "aligned", oracle: &oracle, minimise_bytes: false },
         Sub { name: "corpus", oracle: &oracle, minimise_bytes: false },
         Sub { name: "stream-mix", oracle: &oracle_stream, minimise_bytes: false },
+        Sub { name: "big-flat", oracle: &oracle, minimise_bytes: false },
+        Sub { name: "huge", oracle: &oracle_huge, minimise_bytes: false },
     ]
 }
 
@@ -257,6 +362,52 @@ pub fn run(ctx: &Ctx) {
     let pc = DocParams { ws: 1, dup_keys: false, max_depth: 8, max_items: 10, ..DocParams::default() };
     ctx.search(&s, "plain", ctx.n(1_200_000, 9_600_000), 1200, &move |src: &mut Src| gens::gen_container_doc(src, &pc));
 
+    ctx.search(&s, "wide-objects", ctx.n(8_000, 80_000), 200, &|src: &mut Src| {
+        let mut d = gens::gen_wide_object(src);
+        if src.chance(100) {
+            // repeat some members (duplicate names, kept in order)
+            if let Some(pos) = d.iter().rposition(|&c| c == b'}') {
+                let extra = b",\"k3\":\"dup\",\"k1\":[0],\"k3\":null";
+                if d[..pos].ends_with(b"}") || d[..pos].ends_with(b"]") || d[..pos].last().map(|c| c.is_ascii_digit()).unwrap_or(false) {
+                    d.splice(pos..pos, extra.iter().copied());
+                }
+            }
+        }
+        d
+    });
+    // flat containers of several hundred KiB (node buffers beyond the thread-local one)
+    {
+        let mut big: Vec<Vec<u8>> = Vec::new();
+        for n in [196_600usize, 196_608, 196_700, 262_144] {
+            let mut a = Vec::with_capacity(n * 2 + 2);
+            a.push(b'[');
+            for i in 0..n {
+                if i > 0 {
+                    a.push(b',');
+                }
+                a.push(b'0' + (i % 10) as u8);
+            }
+            a.push(b']');
+            big.push(a);
+        }
+        // (`Object ==` on parsed objects is quadratic in the member count: a small object around a large array)
+        let mut o = b"{\"k\":1,\"arr\":".to_vec();
+        o.extend_from_slice(&big[1]);
+        o.extend_from_slice(b",\"z\":[2]}");
+        big.push(o);
+        // an object of 3,000 members is wide enough for every per-object threshold and still cheap to compare
+        let mut o = b"{".to_vec();
+        for i in 0..3_000 {
+            if i > 0 {
+                o.push(b',');
+            }
+            o.extend_from_slice(format!("\"k{i}\":{}", i % 7).as_bytes());
+        }
+        o.push(b'}');
+        big.push(o);
+        ctx.cases(&sub("big-flat"), &big);
+    }
+    ctx.cases(&sub("huge"), &[vec![0u8], vec![1u8]]);
     ctx.search(&sub("stream-mix"), "stream-mix", ctx.n(300_000, 3_000_000), 400, &|src: &mut Src| src.rest().to_vec());
 
     // alignment sweep: golden documents at every offset and padded to every length
